@@ -19,10 +19,10 @@
 #include "c14_sv.h"
 size_t g_m0;   /* a.size() on entry */
 /* slot j: assigned prefix [0,pos) == b's prefix; from pos on: slots beyond the old size still RAW, the ghost slot unchanged; b's slot j LIVE below b.size */
-#define SPEC_INV(j) ((j) >= CAP || (((j) < pos ? (self->_data[j].g_state == ELEM_LIVE && self->_data[j].v == other->_data[j].v) \
-                                               : ((j) >= g_m0 ? self->_data[j].g_state == ELEM_RAW \
-                                                              : ((j) != g_k || (self->_data[j].v == g_old_k.v && self->_data[j].g_state == g_old_k.g_state)))) && \
-                                    ((j) >= other->m_size || other->_data[j].g_state == ELEM_LIVE)))
+#define SPEC_INV(j) ((j) >= CAP || (((j) < pos ? (ELEM_ST(&self->_data[j]) == ELEM_LIVE && ELEM_V(&self->_data[j]) == ELEM_V(&other->_data[j])) \
+                                               : ((j) >= g_m0 ? ELEM_ST(&self->_data[j]) == ELEM_RAW \
+                                                              : ((j) != g_k || (ELEM_V(&self->_data[j]) == ELEM_V(&g_old_k) && ELEM_ST(&self->_data[j]) == ELEM_ST(&g_old_k))))) && \
+                                    ((j) >= other->m_size || ELEM_ST(&other->_data[j]) == ELEM_LIVE)))
 #define C14_HAVE_SV
 #include "cxx/sv.c"
 #include "c14_harness.h"
@@ -37,7 +37,7 @@ void harness(void)
     c14_sv_any(&o, m, ovals);
     c14_sv_any(&v, m0, vals);
     ELEM *o_storage = o._data, *storage = v._data;
-    ELEM o_k = {0, 0};
+    ELEM o_k; ELEM_SET(&o_k, ELEM_RAW, 0);
     if (k < cap) { o_k = o._data[k]; g_old_k = v._data[k]; }
 #ifdef KF_C14_assign_over_live
     /* known finding: the old elements are neither destroyed nor assigned to, the new ones are constructed on top of them
@@ -52,10 +52,10 @@ void harness(void)
     V(__CPROVER_assert(v.m_size == m && SV_SIZE_OK(&v), "size' == other.size() <= N");)
     V(__CPROVER_assert(o.m_size == m, "other keeps its size");)
     if (k < cap) {
-        if (k < m) V(__CPROVER_assert(v._data[k].v == o_k.v, "element k is a copy of other[k]");)
-        V(__CPROVER_assert(o._data[k].v == o_k.v, "other's elements keep their values");)
+        if (k < m) V(__CPROVER_assert(ELEM_V(&v._data[k]) == ELEM_V(&o_k), "element k is a copy of other[k]");)
+        V(__CPROVER_assert(ELEM_V(&o._data[k]) == ELEM_V(&o_k), "other's elements keep their values");)
         L(__CPROVER_assert(SV_SLOT_OK(&v, k), "SV: slots below m_size LIVE, the others RAW (old elements destroyed exactly once)");)
-        L(__CPROVER_assert(o._data[k].g_state == o_k.g_state, "other's elements keep their lifetime state");)
+        L(__CPROVER_assert(ELEM_ST(&o._data[k]) == ELEM_ST(&o_k), "other's elements keep their lifetime state");)
     }
     CANARY("copy assignment end reachable");
 }
